@@ -48,7 +48,8 @@ PROBES = ["unset_below_non_default_ancestor", "set_on_sibling", "invalid_value_r
           "instance_override_then_unset", "native_anim_max_bytes_shared",
           "render_reveals_lines", "render_reveals_whole", "render_reveals_jpeg",
           "render_reveals_png", "animated_draw_reveals_method", "setting_on_abstract_ancestor",
-          "iterator_rerender_reveals_method", "file_backed_iterm2_render"]
+          "iterator_rerender_reveals_method", "file_backed_iterm2_render",
+          "style_subclass_with_mixin", "animated_iterm2_direct_render"]
 COMPONENTS = {
     "real": ["BaseImage.set_render_method (class and instance forms)", "ImageMeta.forced_support",
              "ITerm2ImageMeta + ClassInstanceProperty / ClassProperty descriptors",
@@ -127,7 +128,13 @@ def run(ch, ctx, fault=None):
             if depth >= 3 or sum(1 for n in nodes if n.parent is parent) >= 3:
                 continue
             name = "%s_%d" % (parent.name, len(nodes))
-            sub = type(parent.cls)(name, (parent.cls,), {})
+            bases = (parent.cls,)
+            if ch.bool("mixin", 0.25):
+                # an application mixin next to the style class, on either side of it
+                mixin = type("Tagged%d" % len(nodes), (), {"tag": "x"})
+                bases = (mixin, parent.cls) if ch.bool("mixin_first", 0.6) else (parent.cls, mixin)
+                ctx.probe("style_subclass_with_mixin")
+            sub = type(parent.cls)(name, bases, {})
             nodes.append(Node(sub, parent, parent.family, name))
         for n in nodes:
             for j in range(ch.int("n_inst", 0, 2)):
@@ -222,6 +229,17 @@ def run(ch, ctx, fault=None):
             ctx.probe("render_reveals_lines" if want == 2 else "render_reveals_whole")
             if override:
                 ctx.probe("per_call_method_override")
+            if n.family == "iterm2" and animated and not via_draw:
+                # a direct (non-frame) render of an animated image: with ANIM in effect the
+                # protocol's native animation is used, i.e. the payload is the animated file
+                import base64
+                m_ = re.search(r"\x1b\]1337;File=[^:]*:([A-Za-z0-9+/=]{8})", render)
+                head = base64.b64decode(m_.group(1))[:4] if m_ else b""
+                ctx.probe("animated_iterm2_direct_render")
+                check((head == b"GIF8") == (eff == "anim"),
+                      "render_did_not_use_the_effective_method",
+                      {"after": desc, "class": n.name, "effective": eff, "override": override,
+                       "payload_is_the_animated_file": head == b"GIF8"}, "render")
             from_file = any(o is obj for o in file_objs)
             reads_file = n.family == "iterm2" and from_file and eff == "whole" \
                 and inst_effective(n, own, "rff")
